@@ -222,7 +222,7 @@ def r_modelexport(root):
     def run(model, repo=None):
         buf = []
         env = dict(consts)
-        env.update({"__functions__": fns, "__module__": t, "__maxdepth__": 30, "f": HS({".kind": "file", ".write": pyeval.PyFn(lambda s_: buf.append(s_))}), "model": model, "repo": repo,
+        env.update({"__functions__": fns, "__module__": t, "__maxdepth__": 30, "__lazygen__": True, "f": HS({".kind": "file", ".write": pyeval.PyFn(lambda s_: buf.append(s_))}), "model": model, "repo": repo,
                     "PRIMITIVE_PYTHON_TYPES": [int, float, str, bool], "Exception": pyeval.PyFn(lambda *a: {".cls": "Exception", ".args": a})})
         try: pyeval.run_block(fn.body, env, max_steps=40000); return "ret", "".join(buf)
         except pyeval.Raised as r_: return "raise", r_.cls
@@ -243,6 +243,22 @@ def r_modelexport(root):
         oke = len(edges(m, i1)) == 1 and 'label="items:0"' in edges(m, i1)[0] and len(edges(m, i3)) == 1 and 'label="items:2"' in edges(m, i3)[0] and len(edges(m, i2)) == 2 and any('label="items:1"' in e_ for e_ in edges(m, i2)) and any('label="first"' in e_ for e_ in edges(m, i2))
         okf = txt.rstrip().endswith("}") and txt.count("{") - txt.count("\\{") == txt.count("}") - txt.count("\\}") and "tags:list=[" in nodes_of(m)[0] if nodes_of(m) else False
         rep(what, okn and oke and okf, "exporting %s writes %d node line(s) for the model, %s for the three items (two of them equal by value, all distinct objects) and the edges model->items %s, model->first %d; documented: one node line per object (identity decides, not equality), one edge per link labelled attribute[:index], the list of primitive tags inside the model's label, balanced braces with the closing brace last" % (what, len(nodes_of(m)), [len(nodes_of(o)) for o in (i1, i2, i3)], [len(edges(m, o)) for o in (i1, i2, i3)], len([e_ for e_ in edges(m, i2) if 'label="first"' in e_])))
+    # the walk over the objects of a model does not nest one Python call per link: a model may chain more objects through
+    # references than the interpreter allows nested calls (call graph of the functions defined inside model_export_to_file)
+    nested = {n_.name: n_ for n_ in ast.walk(fn) if isinstance(n_, ast.FunctionDef) and n_ is not fn}
+    def callees(f_): return {callee_name(c_) for c_ in ast.walk(f_) if isinstance(c_, ast.Call) and isinstance(c_.func, ast.Name) and callee_name(c_) in nested}
+    def reaches(a_, b_, seen=None):
+        seen = seen if seen is not None else set()
+        for c_ in callees(nested[a_]):
+            if c_ == b_: return True
+            if c_ not in seen:
+                seen.add(c_)
+                if reaches(c_, b_, seen): return True
+        return False
+    gens = {n_ for n_, f_ in nested.items() if any(isinstance(x_, (ast.Yield, ast.YieldFrom)) for x_ in ast.walk(f_))}
+    rec = sorted(n_ for n_ in nested if n_ not in gens and reaches(n_, n_))
+    inst += 1; ob("C29", "C29.h", E, W, "the object walk is not recursive (%d nested functions)" % len(nested), not rec)
+    if rec: out.append(Finding("C29", "C29.h", E, W, "recursion of %s" % ", ".join(rec), "the export walks the model by calling %s recursively for every linked object: a model that chains more objects than the interpreter's recursion limit (about a thousand, e.g. a linked list of items referring to their successor) cannot be exported - RecursionError instead of a file" % rec[0], witness="1500 items, each with next=[Item] to its successor"))
     m, _i = graph()
     k1, _t1 = run(None, None); k2, _t2 = run(m, HS({".kind": "repo"}))
     rep("neither or both of model and repo", k1 == "raise" and k2 == "raise", "model_export_to_file(f) %s and model_export_to_file(f, model, repo) %s; documented: both are refused" % ("raises" if k1 == "raise" else "writes a file", "raises" if k2 == "raise" else "writes a file"))
